@@ -187,7 +187,9 @@ class Ctx:
         if env:
             e.update(env)
         if timeout is None:
-            timeout = max(30, self.time_left() + 120)
+            # generous: harnesses end themselves through their own --deadline; a harness that is started late on an overloaded
+            # machine (compilation used up the tier's budget) must still get at least the minimum deadline the checks hand out
+            timeout = max(300, self.time_left() + 300)
         t = time.time()
         try:
             r = subprocess.run([binary] + list(args), stdout=subprocess.PIPE, stderr=subprocess.PIPE, env=e, timeout=timeout)
